@@ -142,19 +142,30 @@ def _v4(ctx):
     want = {("max_value", True): ast.LtE, ("max_value", False): ast.Lt, ("min_value", True): ast.GtE, ("min_value", False): ast.Gt}
     seen = {}
     for st in g.stmts():
-        for t, v, _ in assigned_targets(st):
-            if isinstance(t, ast.Name) and t.id == "valid" and isinstance(v, ast.Compare) and len(v.ops) == 1 and {norm(v.left), norm(v.comparators[0])} & {"result"} and \
-                    (norm(v.comparators[0]).startswith("objective.") or norm(v.left).startswith("objective.")):
+        for t, v0, _ in assigned_targets(st):
+            if not (isinstance(t, ast.Name) and t.id == "valid"):
+                continue
+            # statement form (`if objective.inclusive: valid = a <= b  else: valid = a < b`) or, after K8, a conditional expression
+            alts = [(v0, None)]
+            if isinstance(v0, ast.IfExp) and norm(v0.test) == "objective.inclusive":
+                alts = [(v0.body, True), (v0.orelse, False)]
+            for v, forced in alts:
+                if not (isinstance(v, ast.Compare) and len(v.ops) == 1 and {norm(v.left), norm(v.comparators[0])} & {"result"} and
+                        (norm(v.comparators[0]).startswith("objective.") or norm(v.left).startswith("objective."))):
+                    continue
                 res_left = norm(v.left) == "result"
                 bound_txt = norm(v.comparators[0]) if res_left else norm(v.left)
                 which = bound_txt.split(".")[1]
                 _flip = {ast.Lt: ast.Gt, ast.Gt: ast.Lt, ast.LtE: ast.GtE, ast.GtE: ast.LtE}
                 op_seen = type(v.ops[0]) if res_left else _flip[type(v.ops[0])]
-                conds = [(norm(h.ast.test), lab) for h, lab in gcfg.control_conditions(gcfg.node_of(st)) if h.kind == "if"]
-                inc = ("objective.inclusive", "true") in conds
-                exc = ("objective.inclusive", "false") in conds
-                if not (inc or exc):
-                    continue
+                if forced is None:
+                    conds = [(norm(h.ast.test), lab) for h, lab in gcfg.control_conditions(gcfg.node_of(st)) if h.kind == "if"]
+                    inc = ("objective.inclusive", "true") in conds
+                    exc = ("objective.inclusive", "false") in conds
+                    if not (inc or exc):
+                        continue
+                else:
+                    inc = forced
                 seen[(which, inc)] = (st, op_seen)
     for key, op in want.items():
         if key not in seen:
